@@ -1,8 +1,8 @@
 #!/verif/.venv/bin/python
 # Replay of a solver counterexample against the unmodified code (no shims).
-# property=C13 kernel=history label=typestate:ADD_g
+# property=C13 kernel=history label=typestate:D_mw
 import sys
 sys.path[:0] = ['/repo' + "/pulser-core", '/repo' + "/pulser-simulation", "/verif"]
 from symx.replay import replay
-sys.exit(replay(check='checks.c13', kernel='history', shape={'device': 'virt', 'k': 1, 'first': 7, 'prefix': ['D_g', 'EOM_on', 'EOM_mod_bad']},
-                assignment={}, label='typestate:ADD_g'))
+sys.exit(replay(check='checks.c13', kernel='history', shape={'device': 'mock_noreuse', 'k': 2, 'first': 32, 'prefix': []},
+                assignment={'op1': 4}, label='typestate:D_mw'))
